@@ -158,7 +158,7 @@ fn around(r: &mut Rng, limit: usize) -> usize {
 /// grammar allows (values on both sides of every bound, in bytes and in characters)
 fn bounded_constructors(ctx: &mut Ctx, r: &mut Rng, i: u64) {
     let opts = Opts { legacy_ok: false, strict_output_assets: false, discipline: true, allow_empty_maps: false };
-    let kind = i / 16 % 14; // i is congruent to the shard number modulo 16
+    let kind = i / 16 % 17; // i is congruent to the shard number modulo 16
     let accepted = |ctx: &mut Ctx, what: &str, ok: bool| ctx.bucket(&format!("bounded.{}.{}", what, if ok { "accepted" } else { "refused" }));
     macro_rules! judged {
         ($what:expr, $rule:expr, $make:expr) => {{
@@ -259,10 +259,33 @@ fn bounded_constructors(ctx: &mut Ctx, r: &mut Rng, i: u64) {
             let b = r.bytes(n);
             judged!("encode_arbitrary_bytes_as_metadatum", "transaction_metadatum", Some(encode_arbitrary_bytes_as_metadatum(&b).to_bytes()));
         }
-        _ => {
+        13 => {
             let n = around(r, 64);
             let b = r.bytes(n);
             judged!("PlutusData::new_bytes", "plutus_data", Some(PlutusData::new_bytes(b.clone()).to_bytes()));
+        }
+        // the JSON readers of the same types are constructors too
+        14 => {
+            let n = around(r, 128);
+            let t = unicode_text(r, n);
+            let doc = serde_json::json!(t).to_string();
+            judged!("URL::from_json", "url128", URL::from_json(&doc).ok().map(|u| u.to_bytes()));
+        }
+        15 => {
+            let n = around(r, 128);
+            let t = unicode_text(r, n);
+            let doc = serde_json::json!({"anchor_url": t, "anchor_data_hash": "00".repeat(32)}).to_string();
+            judged!("Anchor::from_json", "anchor", Anchor::from_json(&doc).ok().map(|u| u.to_bytes()));
+        }
+        _ => {
+            let n = around(r, 128);
+            let t = unicode_text(r, n);
+            let doc = serde_json::json!(t).to_string();
+            if r.bool() {
+                judged!("DNSRecordAorAAAA::from_json", "relay", DNSRecordAorAAAA::from_json(&doc).ok().map(|d| Relay::new_single_host_name(&SingleHostName::new(None, &d)).to_bytes()));
+            } else {
+                judged!("DNSRecordSRV::from_json", "relay", DNSRecordSRV::from_json(&doc).ok().map(|d| Relay::new_multi_host_name(&MultiHostName::new(&d)).to_bytes()));
+            }
         }
     }
 }
